@@ -207,7 +207,7 @@ func (boundary) Describe() core.EngineInfo {
 		Real:       []string{"goatlang NewFunc adapters, call/callReady, mkFunc, newMethod, VM.Call/Func/Set/Get, constructors and accessors, slices.SortFunc native"},
 		Stubs:      []string{"host natives are the simulator's (they are the seam)", "SimDisk serves the script"},
 		Assumes:    []string{"an untyped constant passed to a native arrives as goatlang's untyped number: payload compared, type not", "scalars, nil and slices of scalars only", "natives that break their own declared result count are host bugs and are not injected"},
-		ProbesWant: []string{"form_1", "form_2", "form_3", "form_4", "form_5", "form_6", "ctx_stmt", "ctx_stmtret", "ctx_swstmt", "ctx_litret", "hostcall_tryseq", "hostcall_globalfn", "ctx_andor", "hostcall_ctors", "hostcall_shadow", "ctx_vardecl", "ctx_assign", "ctx_expr", "ctx_nested", "ctx_fnvar", "ctx_loop", "ctx_viafn", "ctx_method", "ctx_objmethod", "ctx_reenter", "ctx_recurse", "ctx_sort", "hostcall_swap", "hostcall_variadic", "hostcall_reuse", "hostcall_redefine", "hostcall_consts", "hostcall_structs", "big_literal_arg", "round_2", "fault_propagated", "fault_handled", "hostcall_ok", "hostcall_too_many", "spread"},
+		ProbesWant: []string{"form_1", "form_2", "form_3", "form_4", "form_5", "form_6", "ctx_stmt", "ctx_stmtret", "ctx_swstmt", "ctx_litret", "hostcall_tryseq", "hostcall_globalfn", "hostcall_loaderstub", "ctx_andor", "hostcall_ctors", "hostcall_shadow", "ctx_vardecl", "ctx_assign", "ctx_expr", "ctx_nested", "ctx_fnvar", "ctx_loop", "ctx_viafn", "ctx_method", "ctx_objmethod", "ctx_reenter", "ctx_recurse", "ctx_sort", "hostcall_swap", "hostcall_variadic", "hostcall_reuse", "hostcall_redefine", "hostcall_consts", "hostcall_structs", "big_literal_arg", "round_2", "fault_propagated", "fault_handled", "hostcall_ok", "hostcall_too_many", "spread"},
 	}
 }
 
@@ -429,6 +429,9 @@ func (e boundary) genPlan(r *core.PRNG) *BPlan {
 		if r.Chance(1, 10) {
 			h = BHostCall{Fn: "globalfn", B: 2 + r.Intn(3)}
 		}
+		if r.Chance(1, 12) {
+			h = BHostCall{Fn: "loaderstub"}
+		}
 		np := h.A
 		if h.Fn == "redefine" {
 			np = 3
@@ -526,6 +529,7 @@ func (p *BPlan) render() string {
 	ln("package main")
 	ln(`import "host"`)
 	ln(`import "golang.org/x/exp/slices"`)
+	ln(`import "os"`)
 	ln("var G int")
 	ln("type T struct { A int }")
 	ln("func getG() int { return G }")
@@ -553,6 +557,8 @@ func (p *BPlan) render() string {
 	// natives of the (value, err) shape: variables, a package variable and a struct field receive an
 	// error object at some calls and nil at others
 	// a package variable holding a native, called, re-assigned by the script, called again
+	// natives the host registered through WithLoaders under names the library also defines
+	ln("func stubcheck() (int, bool, int) { b, err := os.ReadFile(\"main/main.go\"); return len(b), err == nil, len(os.Args) }")
 	ln("var gh = host.GA")
 	ln("func ghseq() { host.GObs(1, gh(1)); gh = host.GB; host.GObs(2, gh(2)); gh = host.GA; host.GObs(3, gh(3)) }")
 	ln("func shadowed() { println(7, \"x\"); print(\"y\"); println() }")
@@ -722,7 +728,13 @@ func (p *BPlan) firstPool(si int) int {
 
 // --- execution -------------------------------------------------------------------
 
+type bKept struct {
+	vals []goatlang.Value
+	snap []string
+}
+
 type bRun struct {
+	keptV map[int]bKept // native -> the variadic slice its last invocation received, and what was in it
 	p          *BPlan
 	h          *core.Host
 	res        *core.Result
@@ -778,6 +790,27 @@ func (run *bRun) rets(k, n int) []BVal {
 }
 
 // invoke is the body shared by all native forms.
+// keepV plays a native that keeps the slice of variadic arguments it was given.
+func (run *bRun) keepV(k int, vargs []goatlang.Value) {
+	{
+		// a native may keep the slice of variadic arguments it was given: what the previous
+		// invocation of this native received must still be there when the next one arrives
+		if kept, ok := run.keptV[k]; ok && len(kept.vals) == len(kept.snap) {
+			for i := range kept.vals {
+				if core.ValueString(kept.vals[i]) != kept.snap[i] {
+					run.fail("C19/args", "kept-variadic-slice-overwritten", "native N%d kept the variadic slice of its previous invocation %v; when the next invocation arrived it read %s", k, kept.snap, core.ValuesString(kept.vals))
+					break
+				}
+			}
+		}
+		snap := make([]string, len(vargs))
+		for i, v := range vargs {
+			snap[i] = core.ValueString(v)
+		}
+		run.keptV[k] = bKept{vals: vargs, snap: snap}
+	}
+}
+
 func (run *bRun) invoke(k int, site int, args []goatlang.Value, vargs []goatlang.Value, variadic bool) []goatlang.Value {
 	run.inv[k]++
 	nth := run.inv[k]
@@ -1014,6 +1047,7 @@ func (run *bRun) natives(vm *goatlang.VM) {
 			vm.Set(name, goatlang.NewFunc(n.Argc, n.Rets, func(v *goatlang.VM, a []goatlang.Value, va ...goatlang.Value) []goatlang.Value {
 				s, rest := siteOf(a)
 				cp := append([]goatlang.Value{}, va...)
+				run.keepV(k, va) // the very slice the adapter handed over, not the copy
 				return run.invoke(k, s, rest, cp, true)
 			}))
 		}
@@ -1096,7 +1130,7 @@ func (boundary) Execute(plan any, keep bool) *core.Result {
 	src := p.render()
 	disk := core.NewSimDisk([]core.DiskFile{{Path: "main/main.go", Data: []byte(src)}}, hist)
 	disk.Mute = true
-	run := &bRun{p: p, res: res, lastAt: -1, inv: make([]int, len(p.Natives)), siteInv: map[int]int{}, lastRet: map[int][]BVal{}, andorSeen: map[int]int{}}
+	run := &bRun{p: p, res: res, lastAt: -1, inv: make([]int, len(p.Natives)), siteInv: map[int]int{}, lastRet: map[int][]BVal{}, andorSeen: map[int]int{}, keptV: map[int]bKept{}}
 	run.h = core.NewHost(p.Seed, disk, hist, run.natives)
 	run.h.Budget = core.MaxBudget
 	goatlang.VerifOptimizeOff = p.OptimizeOff
@@ -1276,6 +1310,15 @@ func (run *bRun) hostCall(hc *BHostCall) {
 	}
 	if hc.Fn == "structs" {
 		run.hostStructs(hc)
+		return
+	}
+	if hc.Fn == "loaderstub" {
+		run.h.C.Inc("hostcall_loaderstub")
+		rets, err := run.h.Call("main.stubcheck", 3)
+		src, _ := run.h.Disk.Content("main/main.go")
+		if err != nil || len(rets) != 3 || rets[0].Int() != len(src) || !rets[1].Bool() || rets[2].Int() != 2 {
+			run.fail("C19/args", "loader-registered-native-replaced", "the host registered os.ReadFile and os.Args through WithLoaders (serving the simulated tree: main/main.go has %d bytes, two arguments); the script got %s, %v", len(src), core.ValuesString(rets), err)
+		}
 		return
 	}
 	if hc.Fn == "globalfn" {
